@@ -45,6 +45,8 @@ FIXED_DS = [
 CANON_PAINTS = [{}, {"fill": "red"}, {"fill": "red", "fill-rule": "evenodd"}, {"fill": "none", "stroke": "blue"},
                 {"fill": "none", "stroke": "blue", "stroke-linecap": "round", "stroke-width": "3"}, {"style": "fill:red;stroke-width:0"},
                 {"style": "stroke:red;fill:none;stroke-width:2"}, {"style": "stroke:red", "fill": "#0f0"},
+                {"fill": "none", "stroke": "blue", "stroke-width": "3", "stroke-dasharray": "0 4", "stroke-linecap": "round"},
+                {"fill": "none", "stroke": "blue", "stroke-width": "3", "style": "stroke-dasharray:0,6;stroke-linecap:square"},
                 {"fill": "none", "style": "fill:black"}, {"fill": "red", "fill-opacity": "0", "style": "fill-opacity:1"},
                 {"fill": "none", "stroke": "blue", "stroke-width": "0", "style": "stroke-width:1"}]
 
@@ -59,6 +61,10 @@ RAW_DOCS = [
     '<svg %s><g fill="none" stroke="none"><path stroke="red" stroke-width="2" d="M5,20 L35,20"/><path d="M5,30 L35,30"/></g></svg>' % _NS,
     # a template in defs is painted by the use elements that instance it, with their paint
     '<svg xmlns:xlink="http://www.w3.org/1999/xlink" %s><defs><path id="a" fill="none" d="M5,5 L35,30"/></defs><use xlink:href="#a" stroke="black" stroke-width="3"/></svg>' % _NS,
+    '<svg xmlns:xlink="http://www.w3.org/1999/xlink" %s><defs><g id="icon"><path fill="none" d="M5,5 L35,30"/></g></defs><use xlink:href="#icon" stroke="black" stroke-width="3"/></svg>' % _NS,
+    # … wherever the template sits
+    '<svg xmlns:xlink="http://www.w3.org/1999/xlink" %s><path id="a" fill="none" d="M5,5 L35,5"/><use xlink:href="#a" stroke="red" stroke-width="3" y="10"/></svg>' % _NS,
+    '<svg xmlns:xlink="http://www.w3.org/1999/xlink" %s><g id="k" fill="none"><path d="M5,20 L35,20 M5,28 L35,28"/></g><use xlink:href="#k" stroke="blue" stroke-width="2" y="6"/></svg>' % _NS,
     # a style declaration that restates the initial value overrides a hiding attribute (own or inherited)
     '<svg %s><g fill="none"><rect x="5" y="5" width="20" height="20" style="fill:black"/></g></svg>' % _NS,
     '<svg %s><rect x="5" y="5" width="20" height="20" fill="red" opacity="0" style="opacity:1"/></svg>' % _NS,
@@ -320,14 +326,15 @@ def search(ctx, disagreements):
                                   "detail": "remove_empty_subpaths() %r -> %r: %s" % (a.get("d"), d2, why)})
     # document level: fixed raw documents first (group-level style, shapes that only serve as clip geometry)
     for src in RAW_DOCS:
-        o, out = common.outcome_of(lambda: S.SVG.fromstring(src).remove_unpainted_shapes().tostring())
-        if o != "ok":
-            continue
-        why = same_rendering(ctx, src, out, rng, eps=0.3)
-        ctx.count("judged-raw-doc")
-        if why:
-            tag = "group-style-cascade" if "<g style=" in src else None
-            found.append({"kind": "prune-law", "input": ["doc", src], "tag": tag, "detail": "remove_unpainted_shapes(): " + why})
+        for opname in ("remove_unpainted_shapes", "remove_empty_subpaths"):
+            o, out = common.outcome_of(lambda: getattr(S.SVG.fromstring(src), opname)().tostring())
+            if o != "ok":
+                continue
+            why = same_rendering(ctx, src, out, rng, eps=0.3)
+            ctx.count("judged-raw-doc")
+            if why:
+                tag = "group-style-cascade" if "<g style=" in src else None
+                found.append({"kind": "prune-law", "input": ["doc", src], "tag": tag, "op": opname, "detail": "%s(): %s" % (opname, why)})
     n = 60 if ctx.thorough() else 15
     for _ in range(n):
         F = docgen.Features(strokes=True, display=True, degenerate=True, use=False, clips=False, max_depth=2)
@@ -356,7 +363,7 @@ def replay(ctx, payload):
         rng = random.Random(5)
         if t == "doc":
             S, T = impl()
-            out = S.SVG.fromstring(a).remove_unpainted_shapes().tostring()
+            out = getattr(S.SVG.fromstring(a), payload.get("op", "remove_unpainted_shapes"))().tostring()
             why = same_rendering(ctx, a, out, rng, eps=0.3)
             return {"fails": bool(why), "detail": why}
         o, v, _, _ = run_might_paint(t, a)
